@@ -90,7 +90,8 @@ def run(ctx):
         raise tlc.MachineryError("vacuity: no out-of-range case")
     codec.check_witnesses(ctx, tlc)
 
-    # binding self-test: a corrupted expectation must be noticed in both halves, a refusal must be demanded
+    # binding self-test: a corrupted expectation must change the judgement, in both halves; so must a demanded refusal
+    # (judged as "the verdict changes", so that it also works when the driver under test is itself broken)
     probe = next(s for s in cases if s["expect"] == "ok" and s["ty"] == ["list", ["varint"]] and len(s["val"]) == 2 and all(s["val"]))
     bad = dict(probe)
     bad["enc"] = probe["enc"][:-1] + [(probe["enc"][-1] + 1) % 256]
@@ -98,7 +99,10 @@ def run(ctx):
     bad2["norm"] = list(reversed(probe["norm"])) if probe["norm"][0] != probe["norm"][1] else [probe["norm"][0]]
     flipped = dict(probe)
     flipped["expect"] = "raise"
-    if not codec.judge_encode(drv, bad) or not codec.judge_decode(drv, bad2) or not codec.judge_encode(drv, flipped):
+    V = codec.verdict
+    if V(codec.judge_encode(drv, bad)) == V(codec.judge_encode(drv, probe)) or \
+            V(codec.judge_decode(drv, bad2)) == V(codec.judge_decode(drv, probe)) or \
+            V(codec.judge_encode(drv, flipped)) == V(codec.judge_encode(drv, probe)):
         raise tlc.MachineryError("binding self-test failed: corrupted expectation not detected")
     ctx.note("binding_selftest", {"corrupted_rejected": 3})
 
